@@ -15,6 +15,7 @@
  * 51 Franklin Street, Fifth Floor, Boston, MA 02110-1301 USA.
  */
 
+#include <cmath>
 #include <string>
 
 #include "oomd/Log.h"
@@ -37,8 +38,33 @@ std::unordered_set<CgroupPath> PluginArgParser::parseCgroup(
   return res;
 }
 
+namespace {
+// std::sto* stop at the first character they cannot use and ignore the rest.
+// A plugin argument such as "10abc" or "1.9" for an integer is a typo, not 10
+// or 1, so insist on the whole string being consumed.
+template <typename T, typename Conv>
+T parseWhole(const std::string& str, Conv conv) {
+  size_t pos = 0;
+  T res = conv(str, &pos);
+  if (pos != str.size()) {
+    throw std::invalid_argument("trailing characters in number: " + str);
+  }
+  return res;
+}
+
+template <typename T, typename Conv>
+T parseWholeFinite(const std::string& str, Conv conv) {
+  T res = parseWhole<T>(str, conv);
+  if (!std::isfinite(res)) {
+    throw std::invalid_argument("number must be finite: " + str);
+  }
+  return res;
+}
+} // namespace
+
 int PluginArgParser::parseUnsignedInt(const std::string& intStr) {
-  int res = std::stoi(intStr);
+  int res = parseWhole<int>(
+      intStr, [](const std::string& s, size_t* pos) { return std::stoi(s, pos); });
   if (res < 0) {
     throw std::invalid_argument("must be non-negative");
   }
@@ -105,22 +131,31 @@ std::unordered_set<std::string> PluginArgParser::validArgNames() {
 
 template <>
 int64_t PluginArgParser::parseValue(const std::string& valueString) {
-  return std::stoull(valueString);
+  return parseWhole<int64_t>(
+      valueString, [](const std::string& s, size_t* pos) {
+        return static_cast<int64_t>(std::stoull(s, pos));
+      });
 }
 
 template <>
 int PluginArgParser::parseValue(const std::string& valueString) {
-  return std::stoi(valueString);
+  return parseWhole<int>(valueString, [](const std::string& s, size_t* pos) {
+    return std::stoi(s, pos);
+  });
 }
 
 template <>
 double PluginArgParser::parseValue(const std::string& valueString) {
-  return std::stod(valueString);
+  return parseWholeFinite<double>(
+      valueString,
+      [](const std::string& s, size_t* pos) { return std::stod(s, pos); });
 }
 
 template <>
 float PluginArgParser::parseValue(const std::string& valueString) {
-  return std::stof(valueString);
+  return parseWholeFinite<float>(
+      valueString,
+      [](const std::string& s, size_t* pos) { return std::stof(s, pos); });
 }
 
 template <>
@@ -145,7 +180,9 @@ std::string PluginArgParser::parseValue(const std::string& valueString) {
 template <>
 std::chrono::milliseconds PluginArgParser::parseValue(
     const std::string& valueString) {
-  return std::chrono::milliseconds(std::stoll(valueString));
+  return std::chrono::milliseconds(parseWhole<long long>(
+      valueString,
+      [](const std::string& s, size_t* pos) { return std::stoll(s, pos); }));
 }
 
 template <>
